@@ -207,6 +207,10 @@ def run_part(item):
         wiring = sub
         step = 0.1 if tier == 'thorough' else 2.5
         Ts = t_grid(-200.0, 850.0, step)
+        if tier != 'thorough':
+            # below 0 C the scaling solves a quartic sample by sample: a denser grid there, so that one call carries several
+            # hundred such samples (array-size dependent paths) also in the quick tier
+            Ts = sorted(set(Ts) | set(t_grid(-200.0, 0.0, 0.5)))
         for rl, r0, (a, b, c), I in itertools.product((0.0, 0.7, 5.0), (100.0, 1000.0),
                                                        ((3.9083e-3, -5.775e-7, -4.183e-12), (3.9692e-3, -5.8495e-7, -4.2325e-12)),
                                                        (1e-3, 5e-4)):
